@@ -593,3 +593,6 @@ def check_r3(rep, fx, V):
                     ok = True
                     why = 'the snapshot update is control-dependent on !res.is_err()'
         rep.add('C10.R3', 'C10.R3:repl::run_line:update-only-on-ok', ok, why, f.name, t.get('at'))
+
+# as-built addendum
+EXPLANATION += " As built (DESIGN 9.2): As built the resources include the source registry, the heap and the reverse log; in-place overwrites of code/dict stay above the mark of the current context; the roll-back is bounded by the context right above the entry depth; program code runs at build time only sealed or after acceptance (user-defined immediate words: known finding); a halted program's run-time stacks are dropped."
